@@ -75,4 +75,4 @@ Definition check_case_v (v : variant) (c : case) : verdict :=
            (mism_from v 0 init (c_evs c) (c_outs c) (c_dumps c)).
 
 (* The variant the code currently has. *)
-Definition check_case := check_case_v (mkVariant false false).
+Definition check_case := check_case_v repaired.
